@@ -826,6 +826,107 @@ def fold_container_aliases(rel, module, refnames):
     return done
 
 
+def strip_local_annotations(module):
+    """Step S40.  Inside functions `x: T = v` -> `x = v` and a bare `x: T` is dropped: the annotation of a local variable is never
+    evaluated (PEP 526), so the statement is the plain assignment.  (Module and class level annotations are evaluated and kept.)"""
+    n = 0
+    for fn in ast.walk(module.tree):
+        if not isinstance(fn, (ast.FunctionDef, ast.AsyncFunctionDef)):
+            continue
+        for owner in ast.walk(fn):
+            if isinstance(owner, ast.ClassDef):
+                continue
+            for field in ('body', 'orelse', 'finalbody'):
+                blk = getattr(owner, field, None)
+                if not (isinstance(blk, list) and blk and isinstance(blk[0], ast.stmt)):
+                    continue
+                out = []
+                for st in blk:
+                    if isinstance(st, ast.AnnAssign) and isinstance(st.target, ast.Name) and st.simple:
+                        n += 1
+                        if st.value is not None:
+                            out.append(ast.copy_location(ast.Assign(targets=[st.target], value=st.value), st))
+                        continue
+                    out.append(st)
+                if len(out) != len(blk) or any(a is not b for a, b in zip(out, blk)):
+                    blk[:] = out or [ast.copy_location(ast.Pass(), blk[0])]
+    if n:
+        ast.fix_missing_locations(module.tree)
+    return n
+
+
+def normalise_function_names(repo):
+    """Step S41.  A function of the reference tree that is gone while a new one with the same place (module, class), the same
+    parameter list and a similar body has appeared was RENAMED: the definition and every reference to the new name (calls,
+    attribute accesses, imports) get the reference name back, repository-wide.  Only names that occur nowhere in the reference
+    tree are mapped, and only when the match is unique."""
+    ref = refshapes()
+    refn = {}
+    for q in ref:
+        rel, _, ln = q.partition('::')
+        refn.setdefault(rel, set()).add(ln)
+    all_ref_simple = {ln.rpartition('.')[2] for s_ in refn.values() for ln in s_}
+    mapping = {}
+    for rel, m in repo.modules.items():
+        want = refn.get(rel)
+        if not want:
+            continue
+        have = {ln for ln in m.funcs if '<locals>' not in ln}
+        gone = sorted(want - have)
+        new = sorted(ln for ln in have - want if ln.rpartition('.')[2] not in all_ref_simple)
+        if not gone or not new:
+            continue
+        for g in gone:
+            gcls, _, gname = g.rpartition('.')
+            r = ref[rel + '::' + g]
+            cands = []
+            for nw in new:
+                ncls, _, nname = nw.rpartition('.')
+                if ncls != gcls:
+                    continue
+                fn = m.funcs[nw]
+                ps = [a.arg for a in fn.args.posonlyargs + fn.args.args]
+                if 'params' in r and ps != list(r['params']):
+                    continue
+                have_st = {U(x) for x in ast.walk(fn) if isinstance(x, (ast.Assign, ast.AugAssign, ast.Return, ast.Expr)) and not
+                           (isinstance(x, ast.Expr) and isinstance(x.value, ast.Constant))}
+                want_st = set(r.get('stmts', ()))
+                if not want_st:
+                    continue
+                sim = len(have_st & want_st) / max(1, len(have_st | want_st))
+                if sim >= 0.5:
+                    cands.append((sim, nw))
+            if len(cands) == 1:
+                mapping[(rel, cands[0][1])] = g
+    if not mapping:
+        return {}
+    simple = {}
+    for (rel, nw), g in mapping.items():
+        a, b = nw.rpartition('.')[2], g.rpartition('.')[2]
+        if a in simple and simple[a] != b:
+            return {}
+        simple[a] = b
+    # the new names must not be used for anything else in the reference (they are fresh identifiers)
+    for rel, m in repo.modules.items():
+        changed = False
+        for x in ast.walk(m.tree):
+            if isinstance(x, (ast.FunctionDef, ast.AsyncFunctionDef)) and x.name in simple:
+                x.name = simple[x.name]
+                changed = True
+            elif isinstance(x, ast.Name) and x.id in simple:
+                x.id = simple[x.id]
+                changed = True
+            elif isinstance(x, ast.Attribute) and x.attr in simple:
+                x.attr = simple[x.attr]
+                changed = True
+            elif isinstance(x, ast.alias) and x.name in simple:
+                x.name = simple[x.name]
+                changed = True
+        if changed:
+            m.reindex()
+    return {'%s::%s' % k: v for k, v in mapping.items()}
+
+
 def fold_get_guards(fn, shapes):
     """Step S39.  `X.get(K) is None` / `is not None` in a test  ->  `K not in X` / `K in X`, and under such a guard
     `X.get(K)` -> `X[K]`.  Equal whenever no value stored in X is None - the tables this code base keeps in dictionaries hold
